@@ -225,10 +225,24 @@ func c13Items() []c13Item {
 	}
 	// quantities whose unit is empty or only human readable: still quantities, not Booleans or numbers
 	for _, q := range []struct{ id, n, u string }{{"q1-emptyunit", "1", ""}, {"q0-emptyunit", "0", ""}, {"q1.0-emptyunit", "1.0", ""}, {"q0.00-emptyunit", "0.00", ""}, {"q2-emptyunit", "2", ""}} {
-		out = append(out, c13Item{id: q.id, v: system.MustParseQuantity(q.n, q.u), kind: "Quantity", class: "qty.emptyunit"})
+		out = append(out, c13Item{id: q.id, v: lib.Qty(q.n, q.u), kind: "Quantity", class: "qty.emptyunit"})
 	}
 	for _, q := range []struct{ id, n string }{{"f.qty.unitonly.1", "1"}, {"f.qty.unitonly.0", "0"}, {"f.qty.unitonly.0.00", "0.00"}, {"f.qty.unitonly.2", "2"}} {
 		out = append(out, c13Item{id: q.id, v: &dtpb.Quantity{Value: &dtpb.Decimal{Value: q.n}, Unit: fhir.String("tablet")}, kind: "Quantity", class: "fhir.qty.unitonly"})
+	}
+	// Quantity elements whose code is a calendar keyword (singular / plural) or its UCUM counterpart, and System quantities
+	// with the same units built without the repository's constructor: an element and the parse of what it prints are one value
+	for _, u := range []string{"day", "days", "week", "weeks", "year", "years", "month", "hour", "hours", "minute", "second", "millisecond", "milliseconds", "d", "wk", "a", "mo", "h", "min", "s", "ms"} {
+		out = append(out, c13Item{id: "f.qty.cal." + u, v: &dtpb.Quantity{Value: &dtpb.Decimal{Value: "3"}, Unit: fhir.String(u), Code: fhir.Code(u), System: fhir.URI("http://unitsofmeasure.org")}, kind: "Quantity", class: "fhir.qty.cal"})
+		out = append(out, c13Item{id: "q.cal." + u, v: lib.Qty("3", u), kind: "Quantity", class: "qty.cal"})
+	}
+	// numbers strictly between -1 and 1 and just beyond (the integer part of the text is 0 or -0), as Decimal, as decimal
+	// element, as Quantity
+	for _, n := range []string{"-0.5", "-0.075", "-0.25", "-0.0", "-0.000000000000000001", "0.075", "-1.0", "-1.25", "-10.5", "-0.50"} {
+		out = append(out, c13Item{id: "dec" + n, v: lib.Dec(n), kind: "Decimal", class: "dec.unit-interval", num: lib.RatOf(n)})
+		out = append(out, c13Item{id: "f.dec" + n, v: &dtpb.Decimal{Value: n}, kind: "Decimal", class: "fhir.decimal.unit-interval", num: lib.RatOf(n)})
+		out = append(out, c13Item{id: "qty" + n + "mg", v: lib.Qty(n, "mg"), kind: "Quantity", class: "qty.unit-interval"})
+		out = append(out, c13Item{id: "f.qty" + n + "mg", v: &dtpb.Quantity{Value: &dtpb.Decimal{Value: n}, Unit: fhir.String("mg"), Code: fhir.Code("mg")}, kind: "Quantity", class: "fhir.qty.unit-interval"})
 	}
 	// elements that carry no value (only an id, an extension, a unit): whatever toT
 	// makes of them, convertsToT has to agree and the result has to be a T
@@ -362,7 +376,7 @@ func c13HistReceivers(items []c13Item) []c13Item {
 		out = append(out, c13Item{id: fmt.Sprintf("h%q", s), v: system.String(s), kind: "String", class: "str.hist." + c13StrClass(s), str: s})
 	}
 	for _, q := range [][2]string{{"3", "days"}, {"48", "hours"}, {"1", "week"}, {"2", "wk"}, {"5", "mg"}} {
-		out = append(out, c13Item{id: "hq" + q[0] + q[1], v: system.MustParseQuantity(q[0], q[1]), kind: "Quantity", class: "qty.hist"})
+		out = append(out, c13Item{id: "hq" + q[0] + q[1], v: lib.Qty(q[0], q[1]), kind: "Quantity", class: "qty.hist"})
 	}
 	return out
 }
